@@ -1489,3 +1489,213 @@ def _uf_mixed(o):
     o.dom = 'pos'
     return lambda: getattr(odl.ufunc_ops, name)(
         ProductSpace(odl.rn(n), odl.rn(n, dtype='float32')))
+
+
+# --- expression classes of odl.operator.operator --------------------------
+
+EXPR_KINDS = ['sum', 'comp', 'lscal', 'rscal', 'lvec', 'rvec', 'vecsum',
+              'pwprod', 'neg', 'pow', 'div']
+
+
+def expr(o, key, depth, linear=False):
+    """Pick an endomorphism expression tree; returns f(space) -> operator."""
+    if depth == 0:
+        return endo(o, key, linear=linear)
+    kinds = ['sum', 'comp', 'lscal', 'rscal', 'neg'] if linear else EXPR_KINDS
+    k = o.pick(key + '.x', kinds)
+    a = expr(o, key + 'a', depth - 1, linear)
+    b = expr(o, key + 'b', depth - 1, linear) \
+        if k in ('sum', 'comp', 'pwprod') else None
+    s = o.scalar(key + '.xs', nonzero=True)
+    seed = o.pick(key + '.xseed', st.integers(0, 9999))
+    n = o.pick(key + '.n', st.integers(0, 3)) if k == 'pow' else 0
+    tmp = o.pick(key + '.tmp', (False, False, True))
+    direct = o.pick(key + '.direct', (False, True))
+
+    def mk(sp):
+        A = a(sp)
+        Bop = b(sp) if b is not None else None
+        v = vec(sp, seed)
+        if k == 'sum':
+            if direct:
+                return odl.OperatorSum(A, Bop, sp.element() if tmp else None,
+                                       sp.element() if tmp else None)
+            return A + Bop
+        if k == 'comp':
+            if direct:
+                return odl.OperatorComp(A, Bop, sp.element() if tmp else None)
+            return A * Bop
+        if k == 'lscal':
+            return odl.OperatorLeftScalarMult(A, s) if direct else s * A
+        if k == 'rscal':
+            if direct:
+                return odl.OperatorRightScalarMult(
+                    A, s, sp.element() if tmp else None)
+            return A * s
+        if k == 'lvec':
+            return odl.OperatorLeftVectorMult(A, v) if direct else v * A
+        if k == 'rvec':
+            return odl.OperatorRightVectorMult(A, v) if direct else A * v
+        if k == 'vecsum':
+            return odl.OperatorVectorSum(A, v) if direct else (
+                A - v if tmp else A + v)
+        if k == 'pwprod':
+            return odl.OperatorPointwiseProduct(A, Bop)
+        if k == 'neg':
+            return -A
+        if k == 'pow':
+            return A ** max(n, 1)
+        if k == 'div':
+            return A / s
+        raise HarnessError('unknown expression kind ' + k)
+    return mk
+
+
+def _expr_entry(kind, cls):
+    @entry('expr.' + kind, 'expr', classes=[cls], weight=2)
+    def _f(o):
+        sd = anyspace(o, 'space', kinds=('rn', 'discr', 'cn'), medium=True)
+        o.opts['t.x'] = kind
+        depth = o.pick('depth', (1, 1, 2))
+        lin = o.flag('linear')
+        if kind in ('lvec', 'rvec', 'vecsum', 'pwprod', 'pow', 'div') and lin:
+            lin = False
+        # force the top-level node kind, operands are drawn
+        saved = o.draw
+        e = _forced_expr(o, 't', depth, lin, kind)
+        o.draw = saved
+        o.dom = 'mod'
+        return lambda: e(B(sd))
+    return _f
+
+
+def _forced_expr(o, key, depth, linear, kind):
+    class _Forced(Src):
+        pass
+    orig_pick = o.pick
+
+    def pick(k, strat):
+        if k == key + '.x':
+            if o.draw is not None:
+                o.opts[k] = kind
+            return kind
+        return orig_pick(k, strat)
+    o.pick = pick
+    try:
+        return expr(o, key, depth, linear)
+    finally:
+        o.pick = orig_pick
+
+
+for _k, _c in [('sum', 'OperatorSum'), ('comp', 'OperatorComp'),
+               ('lscal', 'OperatorLeftScalarMult'),
+               ('rscal', 'OperatorRightScalarMult'),
+               ('lvec', 'OperatorLeftVectorMult'),
+               ('rvec', 'OperatorRightVectorMult'),
+               ('vecsum', 'OperatorVectorSum'),
+               ('pwprod', 'OperatorPointwiseProduct'),
+               ('neg', 'OperatorLeftScalarMult'), ('pow', 'OperatorComp'),
+               ('div', 'OperatorLeftScalarMult')]:
+    _expr_entry(_k, _c)
+
+
+@entry('expr.derived', 'expr', weight=3,
+       classes=['OperatorSum', 'OperatorComp', 'OperatorLeftScalarMult',
+                'OperatorRightScalarMult', 'OperatorLeftVectorMult',
+                'OperatorRightVectorMult'])
+def _expr_derived(o):
+    """derivative(x) / adjoint / inverse of expression trees."""
+    sd = anyspace(o, 'space', kinds=('rn', 'discr', 'cn'), medium=False)
+    how = o.pick('how', ('derivative', 'adjoint', 'inverse'))
+    depth = o.pick('depth', (1, 2))
+    if how == 'derivative':
+        e = expr(o, 't', depth, False)
+    elif how == 'adjoint':
+        e = expr(o, 't', depth, True)
+    else:
+        kinds = ['scale', 'ident', 'mult']
+        a = endo(o, 'ia', kinds)
+        b = endo(o, 'ib', kinds)
+        ik = o.pick('ikind', ('comp', 'lscal', 'rscal', 'lvec', 'rvec'))
+        s = o.scalar('is', nonzero=True)
+        seed0 = o.seed('iseed')
+
+        def e(sp):
+            A, Bop = a(sp), b(sp)
+            v = vec(sp, seed0, 'nz')
+            return {'comp': lambda: A * Bop, 'lscal': lambda: s * A,
+                    'rscal': lambda: A * s, 'lvec': lambda: v * A,
+                    'rvec': lambda: A * v}[ik]()
+    seed = o.seed()
+    o.dom = 'mod'
+
+    def mk():
+        sp = B(sd)
+        op = e(sp)
+        if how == 'derivative':
+            return op.derivative(vec(sp, seed, 'mod'))
+        return getattr(op, how)
+    return mk
+
+
+@entry('expr.rect', 'expr', weight=2,
+       classes=['OperatorComp', 'OperatorSum', 'OperatorLeftVectorMult',
+                'OperatorRightVectorMult', 'OperatorVectorSum'])
+def _expr_rect(o):
+    """Expressions whose operands change the space (rn(n) -> rn(m))."""
+    m = o.pick('m', st.integers(1, 5))
+    n = o.pick('n', st.integers(1, 5))
+    seed = o.seed()
+    k = o.pick('k', ('comp', 'compL', 'sum', 'lvec', 'rvec', 'vecsum',
+                     'lscal', 'rscal', 'adjcomp', 'func-lvec'))
+    e = endo(o, 'e')
+    s = o.scalar('s', nonzero=True)
+    o.dom = 'mod'
+
+    def mk():
+        A = odl.MatrixOperator(_matrix(seed, m, n))
+        A2 = odl.MatrixOperator(_matrix(seed + 1, m, n))
+        if k == 'comp':
+            return A * e(A.domain)
+        if k == 'compL':
+            return e(A.range) * A
+        if k == 'sum':
+            return A + A2
+        if k == 'lvec':
+            return vec(A.range, seed) * A
+        if k == 'rvec':
+            return A * vec(A.domain, seed)
+        if k == 'vecsum':
+            return A - vec(A.range, seed)
+        if k == 'lscal':
+            return s * A
+        if k == 'rscal':
+            return A * s
+        if k == 'adjcomp':
+            return A.adjoint * A2
+        return vec(A.range, seed) * S.L2NormSquared(A.range) * A
+    return mk
+
+
+@entry('FunctionalLeftVectorMult', 'expr')
+def _flvm(o):
+    sd = anyspace(o, 'space', kinds=('rn', 'discr'), medium=False)
+    rd = anyspace(o, 'ran', kinds=('rn', 'discr'), medium=True)
+    fk = o.pick('f', ('l2sq', 'l1', 'inner', 'norm'))
+    seed = o.seed()
+    how = o.pick('how', ('op', 'op', 'derivative', 'adjoint'))
+    direct = o.flag('direct')
+
+    def mk():
+        sp, ran = B(sd), B(rd)
+        f = {'l2sq': lambda: S.L2NormSquared(sp), 'l1': lambda: S.L1Norm(sp),
+             'inner': lambda: odl.InnerProductOperator(vec(sp, seed)),
+             'norm': lambda: odl.NormOperator(sp)}[fk]()
+        v = vec(ran, seed + 1)
+        op = odl.FunctionalLeftVectorMult(f, v) if direct else v * f
+        if how == 'derivative' and fk in ('l2sq', 'inner'):
+            return op.derivative(vec(sp, seed + 2, 'nz'))
+        if how == 'adjoint' and fk == 'inner':
+            return op.adjoint
+        return op
+    return mk
